@@ -17,7 +17,7 @@ import hashlib
 import os
 import re
 
-from rustlex import Source, ExtractError, mask, match_close, norm_ws
+from rustlex import Source, ExtractError, mask, match_close, norm_ws, byte_string_literals
 
 LOG_RE = re.compile(r'(?:::)?log::(?:trace|debug|info|warn|error)!\s*\(')
 CFG_FEATURE_RE = re.compile(r'#\[cfg\(feature\s*=\s*"(metrics|prometheus)"\)\]')
@@ -156,9 +156,9 @@ def body_deletions(text, rules):
     for mt in re.finditer(r'(?<![\w:])::(indexmap|serde)::', m):
         dels.append((mt.start(), mt.end(), mt.group(1) + '::'))
         rules.append(('D4', f'::{mt.group(1)}:: -> {mt.group(1)}::', ''))
-    for mt in re.finditer(r'(?<![\w:])::std::fs::', m):
-        dels.append((mt.start(), mt.end(), 'fs::'))
-        rules.append(('D4', '::std::fs:: -> fs::', ''))
+    for mt in re.finditer(r'(?<![\w:])::std::(fs|io)::', m):
+        dels.append((mt.start(), mt.end(), mt.group(1) + '::'))
+        rules.append(('D4', f'::std::{mt.group(1)}:: -> {mt.group(1)}::', ''))
     dels.sort(key=lambda d: (d[0], d[1]))
     return dels
 
@@ -417,7 +417,7 @@ class Extractor:
         if arrow is not None:
             wm = re.search(r'\bwhere\b', msig[arrow:])
             tend = arrow + wm.start() if wm else len(sig)
-            ty = sig[arrow + 2:tend].strip()
+            ty = ''.join(sg.text for sg in _apply_deletions(sig[arrow + 2:tend], 0, [(d[0] - arrow - 2, d[1] - arrow - 2) + tuple(d[2:]) for d in sig_dels if arrow + 2 <= d[0] and d[1] <= tend])).strip()
             retname = opts.get('ret', 'ret')
             pre = _apply_deletions(sig[:arrow], sig_start, [d for d in sig_dels if d[1] <= arrow])
             segs += pre
@@ -436,6 +436,10 @@ class Extractor:
             # verifier option (specification only): facts established before a loop stay known inside it
             segs.insert(0, Seg('#[verifier::loop_isolation(false)]\n'))
             rules.append(('E1', 'verifier attribute loop_isolation(false)', ''))
+        if opts.get('rlimit'):
+            # verifier option (specification only): solver resource budget for this function
+            segs.insert(0, Seg(f"#[verifier::rlimit({int(opts['rlimit'])})]\n"))
+            rules.append(('E1', f"verifier attribute rlimit({int(opts['rlimit'])})", ''))
         if opts.get('complexinv'):
             segs.insert(0, Seg('#[verifier::allow_complex_invariants]\n'))
             rules.append(('E1', 'verifier attribute allow_complex_invariants', ''))
@@ -610,6 +614,24 @@ class Extractor:
                 expr = body[mt.end():semi].strip()
                 dels.append((mt.start(), semi + 1, '{ ' + inner[2] + '.keep(' + expr + '); continue; }'))
                 rules.append(('R1', f'`return {norm_ws(expr)};` in the retain closure -> `{{ {inner[2]}.keep(..); continue; }}`', ''))
+            dels.sort(key=lambda d: (d[0], d[1]))
+        # ---- L1: a byte-string literal b"..." is written as the array literal of its bytes `&[0x..u8, ..]` (same value, same type up to the
+        #      unsized coercion that the call site performs anyway); Verus knows the LENGTH of a byte-string literal but not its contents
+        if opts.get('bytelit'):
+            for (a_, e_, val) in byte_string_literals(body):
+                dels.append((a_, e_, '&[' + ', '.join(f'{b}u8' for b in val) + ']'))
+                rules.append(('L1', 'byte-string literal -> array literal of the same bytes', repr(val)[:60]))
+            dels.sort(key=lambda d: (d[0], d[1]))
+        # ---- M1: method call `.NAME(` renamed to `.NAME_(`: a wrapper of the unit's prelude (trait method, external_body) whose contract is the
+        #      ASSUMED specification of the std method of that name - only for std methods to which Verus cannot attach a specification
+        #      (`to_be_bytes`: return type is a const-generic expression)
+        if opts.get('wrap'):
+            mb = mask(body)
+            for nm in opts['wrap'].split(','):
+                for mt in re.finditer(r'\.\s*' + re.escape(nm) + r'\s*\(', mb):
+                    st = mt.start() + mb[mt.start():mt.end()].index(nm)
+                    dels.append((st, st + len(nm), nm + '_'))
+                    rules.append(('M1', f'std method .{nm}() called through the prelude wrapper .{nm}_() (assumed specification)', ''))
             dels.sort(key=lambda d: (d[0], d[1]))
         # ---- B1: non-short-circuit `A & B` on two side-effect-free operands (optionally negated / parenthesised variable or field path) -> `&&`
         #      (same value, and neither operand has an effect whose evaluation could be skipped; Verus rejects `&` on bool)
